@@ -4,7 +4,7 @@
    components, clone. *)
 From Coq Require Import List Arith Lia Bool NArith.
 From NngV Require Import Base.ListX Url.Utf8Model Url.Utf8Spec Url.Utf8Proofs Url.CanonModel Url.CanonPure Url.CanonRefine
-  Url.CanonSpec Url.UrlParseModel.
+  Url.CanonSpec Url.CanonProofs Url.UrlParseModel.
 Import ListNotations.
 Local Open Scope N_scope.
 
@@ -876,8 +876,80 @@ Lemma clone_null_host_witness :
               is_wild (u_buf c) (u_hostname c) = true /\ url_view c = None.
 Proof. vm_compute. eexists. eexists. repeat split. Qed.
 
-(* decimal ports print and read back *)
-Lemma dec_port_roundtrip : forallb (fun v => match get_port no_resolver (dec_string v) with
-                                             | Some w => w =? v | None => false end)
-                                   (map N.of_nat (seq 0 65536)) = true.
-Proof. vm_compute. reflexivity. Qed.
+(* ------------------------------------------------------------ the path component *)
+Lemma uhex_not_qf h : uhex h = true -> (h =? 63) || (h =? 35) = false.
+Proof.
+  unfold uhex, sp_digit. intros H. apply orb_true_iff in H.
+  destruct H as [H|H]; apply andb_true_iff in H; destruct H as [H1 H2]; apply N.leb_le in H1, H2;
+    apply orb_false_iff; split; apply N.eqb_neq; lia.
+Qed.
+
+Lemma escapes_canonical_path_part : forall l, escapes_canonical l = true -> escapes_canonical (path_part l) = true.
+Proof.
+  induction l as [|c r IH]; intros H; [reflexivity|].
+  cbn [path_part]. destruct ((c =? 63) || (c =? 35)) eqn:Eq; [reflexivity|].
+  cbn [escapes_canonical] in *. apply andb_true_iff in H. destruct H as [H1 H2].
+  rewrite (IH H2), andb_true_r.
+  destruct (c =? 37); [|reflexivity].
+  destruct r as [|h1 [|h2 r']]; try discriminate.
+  apply andb_true_iff in H1. destruct H1 as [H1 H3]. apply andb_true_iff in H1. destruct H1 as [Hh1 Hh2].
+  cbn [path_part]. rewrite (uhex_not_qf _ Hh1), (uhex_not_qf _ Hh2). rewrite Hh1, Hh2, H3. reflexivity.
+Qed.
+
+Lemma hi_not_qf b : 128 <= b -> (b =? 63) || (b =? 35) = false.
+Proof. intros H. apply orb_false_iff; split; apply N.eqb_neq; lia. Qed.
+
+Lemma wf_utf8_path_part : forall l, wf_utf8 l -> wf_utf8 (path_part l).
+Proof.
+  induction 1; cbn [path_part];
+    repeat match goal with
+    | H : in_range _ _ ?b |- context [(?b =? 63) || (?b =? 35)] =>
+        rewrite (hi_not_qf b) by (unfold in_range in H; lia)
+    | H : tail_byte ?b |- context [(?b =? 63) || (?b =? 35)] =>
+        rewrite (hi_not_qf b) by (unfold tail_byte, in_range in H; lia)
+    end; cbn [N.eqb Pos.eqb orb]; try (constructor; assumption).
+  all: destruct ((b =? 63) || (b =? 35)); constructor; assumption.
+Qed.
+
+(* ------------------------------------------------------------ canonical components of an accepted URL *)
+Theorem url_parse_canonical fx resolver s tail u v : nz s ->
+  url_parse fx resolver (s ++ 0 :: tail) = UVal u -> is_path_only (u_scheme u) = false ->
+  url_view u = Some v ->
+  escapes_canonical (v_path v) = true /\ no_double_slash (v_path v) = true /\
+  no_dot_segments (v_path v) = true /\
+  (exists host, v_hostname v = Some host /\ forallb (fun x => negb (sp_upper x)) host = true /\
+                (length host < HOST_MAX)%nat) /\
+  (fx_utf8 fx = true -> wf_utf8 (v_path v)).
+Proof.
+  intros Hs E Hpo Hv. pose proof (url_parse_spec fx resolver s tail Hs) as H. rewrite E in H.
+  destruct H as (len & rest & v' & Es & _ & Hf & Hv' & _ & _ & Hrest).
+  rewrite Hv in Hv'. inversion Hv'; subst v'. clear Hv'.
+  rewrite Hpo in Hrest.
+  destruct Hrest as (auth & rem & out & host & hp & Hr & Hns & Hrem & Hcp & Hout & Hpath & Eout & Hhost & Hhl & Hui & a & c & Hsub).
+  destruct (canon_pure_canonical _ _ _ Hcp) as (C1 & C2 & C3).
+  rewrite Hpath. repeat split; auto.
+  - apply escapes_canonical_path_part. exact C1.
+  - exists host. repeat split; auto. eapply host_lower_sub; eauto.
+  - intros Hu. rewrite Hu in Hcp. apply wf_utf8_path_part.
+    assert (Hnrem: nz rem).
+    { rewrite Es in Hs. apply nz_app in Hs. destruct Hs as [_ Hs]. apply nz_app in Hs. destruct Hs as [_ Hs].
+      rewrite Hr in Hs. apply nz_app in Hs. tauto. }
+    eapply canon_pure_utf8; eauto.
+Qed.
+
+(* re-canonicalising the stored path?query#fragment text gives it back: the
+   core of the sprintf/parse round trip *)
+Theorem url_parse_text_stable fx resolver s tail u v : nz s ->
+  url_parse fx resolver (s ++ 0 :: tail) = UVal u -> is_path_only (u_scheme u) = false ->
+  url_view u = Some v ->
+  let text := v_path v ++ qf_text (v_query v) (v_fragment v) in
+  canon_pure (fx_utf8 fx) text = Some text /\ path_part text = v_path v.
+Proof.
+  intros Hs E Hpo Hv. pose proof (url_parse_spec fx resolver s tail Hs) as H. rewrite E in H.
+  destruct H as (len & rest & v' & Es & _ & Hf & Hv' & _ & _ & Hrest).
+  rewrite Hv in Hv'. inversion Hv'; subst v'. clear Hv'.
+  rewrite Hpo in Hrest.
+  destruct Hrest as (auth & rem & out & host & hp & Hr & Hns & Hrem & Hcp & Hout & Hpath & Eout & _).
+  cbn zeta. rewrite Hpath, <- Eout. split; [|reflexivity].
+  eapply canon_pure_idempotent; eauto.
+Qed.
